@@ -1169,7 +1169,7 @@ func main() {
 	var viols []pendingViol
 	// hang protection only: generous enough that a loaded machine does not cap a
 	// run (a cap would make the counts depend on the load)
-	budget := harness.Pick(c, 20*time.Minute, 3*time.Hour)
+	budget := harness.Pick(c, 90*time.Minute, 8*time.Hour)
 
 	// ---- round-robin: all interleavings
 	var rrParams []string
